@@ -41,14 +41,25 @@ Theorem C13_find_previous_first_of_max : forall ver hist,
 Proof. exact find_previous_two_pass. Qed.
 Print Assumptions C13_find_previous_first_of_max.
 
-(* the hypothesis is needed: the scan starts from max = -1, so a negative version is never found *)
-Theorem C13_negative_version_refuted : exists ver hist o,
+(* the hypothesis is needed (a domain witness, not a finding: OSM versions start at 1): the scan
+   starts from max = -1, so a negative version is never found *)
+Theorem C13_negative_version_hypothesis_needed : exists ver hist o,
   is_prev ver hist o /\ find_previous ver hist = None.
 Proof.
   exists 1, [mkElem KNode 5 (-1) true 9], (mkElem KNode 5 (-1) true 9).
   split; [|reflexivity]. split; [left; reflexivity|]. split; [cbn; lia|].
   intros h [Hh|[]] _. subst h. cbn. lia.
 Qed.
+
+(* the per-case oracle (C13/Check.v, judgement 2) decides with the boolean forms no_prevb /
+   is_prevb: they reflect the predicates of the theorems (is_prevb identifies the old element by
+   version, payload and visibility, i.e. by everything the harness observes) *)
+Theorem C13_oracle_reflects : forall ver hist,
+  (no_prevb ver hist = true <-> no_prev ver hist) /\
+  (forall v p vis, is_prevb ver hist v p vis = true <->
+                   exists o, In o hist /\ e_ver o = v /\ e_pay o = p /\ e_vis o = vis /\ is_prev ver hist o).
+Proof. intros ver hist. split; [apply no_prevb_iff|intros; apply is_prevb_iff]. Qed.
+Print Assumptions C13_oracle_reflects.
 
 (* 2. the actions.  On success there is exactly one action per changed element, in the order
       create, modify, delete and node, way, relation within each (Forall2 against
